@@ -60,7 +60,7 @@ func caseRand(seed int64, label string) *rand.Rand {
 }
 
 var nameStyles = []string{"prefix", "random", "plain", "longprefix"}
-var numStyles = []string{"dense", "random", "extremes", "sparse"}
+var numStyles = []string{"dense", "random", "extremes", "sparse", "negative"}
 
 // bytes that stress the string syntax (delimiters, escapes, line ends) and the order
 var nastyBytes = []byte{0x00, 0x01, 0x0a, 0x0d, 0x20, '(', ')', '\\', '/', '#', '<', '>', 'A', 'a', 0x7f, 0x80, 0xc3, 0xa9, 0xfe, 0xff}
@@ -138,6 +138,10 @@ func genKeys(num bool, style string, n int, rng *rand.Rand) []ckey {
 			}
 			for len(keys) < n {
 				add(numKey(int64(rng.Uint64())))
+			}
+		case "negative": // every key below zero (the zero value of the key type is above all of them), step 2
+			for i := 0; len(keys) < n; i++ {
+				add(numKey(int64(-1 - 2*i)))
 			}
 		case "extremes": // clustered at both ends of the int64 range, step 2
 			for i := 0; len(keys) < n; i++ {
